@@ -6,12 +6,14 @@ from harness.core import numeval, pool, tb
 from harness.gen import systems
 from harness.props import _shared
 
-PROOF_MODULE = ["OdeVerif.Proofs.C01", "OdeVerif.Proofs.ReachSpec", "OdeVerif.Proofs.RefinePropagator"]
-GENERATED = ["PyPropagator"]
+PROOF_MODULE = ["OdeVerif.Proofs.C01", "OdeVerif.Proofs.ReachSpec", "OdeVerif.Proofs.RefinePropagator", "OdeVerif.Proofs.RefineScatter", "OdeVerif.Proofs.RefineSubSystem"]
+GENERATED = ["PyPropagator", "PyScatter", "PySubSystem"]
 THEOREMS = ["OdeVerif.C01.assemble_ok_linear", "OdeVerif.C01.flow_identity", "OdeVerif.C01.flow_deriv", "OdeVerif.C01.affine_flow_unique",
             "OdeVerif.C01.flow_semigroup", "OdeVerif.C01.analytic_solver_exact", "OdeVerif.C01.blocks_sound", "OdeVerif.C01.sum_mirror_unsound",
             "OdeVerif.ReachSpec.prop_reach_iff", "OdeVerif.ReachSpec.label_ok", "OdeVerif.ReachSpec.label_eq_iff", "OdeVerif.MatrixFlow.P_zero", "OdeVerif.MatrixFlow.P_add", "OdeVerif.MatrixFlow.flow_unique", "OdeVerif.MatrixFlow.P_col_zero",
-            "OdeVerif.Refine.propagatorSolver_error_iff", "OdeVerif.Refine.propagatorSolver_ok", "OdeVerif.Refine.propagatorSolver_ok_of_model"]
+            "OdeVerif.Refine.propagatorSolver_error_iff", "OdeVerif.Refine.propagatorSolver_ok", "OdeVerif.Refine.propagatorSolver_ok_of_model",
+            "OdeVerif.Refine.scatterBlocks_inside", "OdeVerif.Refine.scatterBlocks_outside", "OdeVerif.Refine.scatterBlocks_eq_scatter",
+            "OdeVerif.Refine.subSystem_idx", "OdeVerif.Refine.subSystem_A_b", "OdeVerif.Refine.subSystem_c"]
 LEVEL = "proof"
 LINEAR_SHAPES = ["isolated", "chain", "fan_in", "fan_out", "cycle", "antisym", "nonadjacent", "offset_single", "offset_in_group", "depends_on_offset",
                  "higher_order", "higher_order_offset", "analytic_dep_numeric", "dense3", "const_drift", "offset_single", "chain_from_offset", "tiny_literals"]
